@@ -1,7 +1,133 @@
 import FormulaeModel.Driver.Base
-namespace FormulaeModel.Driver.C03
-open Lean FormulaeModel FormulaeModel.Driver
+import FormulaeModel.Model.Contrasts
+import FormulaeModel.Model.Encoding
+import FormulaeModel.Spec.C03
+/-
+Driver operations of C03.
 
-def handle (_op : String) (_j : Json) : Option Json := none
+  c03_pick  {"group": [[name, [factor, …]], …], "impl": <codings of the real pick_contrasts or null>}
+            → model output of `pickContrasts`, and the interval-partition predicate evaluated on the
+              model's and on the implementation's codings
+  c03_pipe  {"terms": [<term>, …], "env_copyable": bool, "levels": {factor: n}, "impl": <design or null>}
+            <term> = {"i": true} | {"c": [[name, "n"|"c", isCall], …]}
+            <design> = [[term name, [[component name, "n"|"c", flag], …]], …]
+            → model output of `Encoding.run`, the terms of the design, guard classes, the
+              specification evaluated on the model's output and on the implementation's design,
+              column count / dimension formula for the given level counts
+-/
+namespace FormulaeModel.Driver.C03
+open Lean FormulaeModel FormulaeModel.Driver FormulaeModel.Contrasts FormulaeModel.Encoding
+
+def codingJson (c : Coding) : Json :=
+  Json.arr (c.map (fun e => Json.arr #[Json.str e.1, Json.bool e.2])).toArray
+
+def pickJson (d : Dict (List Coding)) : Json :=
+  Json.arr (d.map (fun e => Json.arr #[Json.str e.1, Json.arr (e.2.map codingJson).toArray])).toArray
+
+def jList (j : Json) : List Json := match j with | .arr a => a.toList | _ => []
+def jStr (j : Json) : String := match j with | .str s => s | _ => ""
+def jBool (j : Json) : Bool := match j with | .bool b => b | _ => false
+
+def groupOfJson (j : Json) : List (String × List Factor) :=
+  (jList j).map (fun e => match e with
+    | .arr #[.str n, fs] => (n, (jList fs).map jStr)
+    | _ => ("", []))
+
+def codingsOfJson (j : Json) : Dict (List Coding) :=
+  (jList j).map (fun e => match e with
+    | .arr #[.str n, cs] => (n, (jList cs).map (fun c => (jList c).map (fun p => match p with
+        | .arr #[.str f, .bool b] => (f, b)
+        | _ => ("", false))))
+    | _ => ("", []))
+
+/-- interval-partition predicate on codings of one group (executable form of the statement of
+`C03_pick_contrasts_partition`): every subset of the down-closure of the group's terms is in the
+interval of exactly one coding, nothing else is covered, and the names are the group's names in
+order -/
+def pickPartition (group : List (String × List Factor)) (out : Dict (List Coding)) : Bool :=
+  let fam : List Spec.C03.STerm := group.map (fun g => { cat := g.2, num := [] })
+  let coding : List Spec.C03.CTerm := out.flatMap (fun e => e.2.map (fun c =>
+    { red := (c.filter (fun p => !p.2)).map (·.1), full := (c.filter (fun p => p.2)).map (·.1), num := [] }))
+  out.map (·.1) == group.map (·.1) &&
+  out.all (fun e => e.2.all (fun c => (Spec.C03.dedupStr (c.map (·.1))).length == c.length)) &&
+  Spec.C03.partition fam coding
+
+def kindOfJson (j : Json) : Encoding.Kind := if jStr j == "n" then .numeric else .categoric
+def kindStr : Encoding.Kind → String | .numeric => "n" | .categoric => "c"
+
+def termOfJson (j : Json) : Option TermDesc :=
+  if getBool j "i" then some .intercept else
+  match (getArr j "c").map (fun c => match c with
+      | .arr #[.str n, k, .bool call] => ({ name := n, kind := kindOfJson k, isCall := call } : Comp)
+      | _ => { name := "", kind := .numeric, isCall := false }) with
+  | [] => none
+  | c :: cs => some (.term c cs)
+
+def codedJson (t : CodedTerm) : Json :=
+  Json.arr #[Json.str t.1, Json.arr (t.2.map (fun cf =>
+    Json.arr #[Json.str cf.1.name, Json.str (kindStr cf.1.kind), Json.bool cf.2])).toArray]
+
+def codedOfJson (j : Json) : CodedTerm :=
+  match j with
+  | .arr #[.str n, cs] => (n, (jList cs).map (fun c => match c with
+      | .arr #[.str cn, k, .bool b] => (({ name := cn, kind := kindOfJson k, isCall := false } : Comp), b)
+      | _ => (({ name := "", kind := .numeric, isCall := false } : Comp), false)))
+  | _ => ("", [])
+
+def levelsOfJson (j : Json) : String → Nat :=
+  let tbl : List (String × Nat) := match j with
+    | .obj kvs => kvs.toList.map (fun (k, v) => (k, (v.getNat?).toOption.getD 0))
+    | _ => []
+  fun f => ((tbl.find? (·.1 == f)).map (·.2)).getD 0
+
+def pipe (j : Json) : Json :=
+  let terms := (getArr j "terms").map termOfJson
+  if terms.any Option.isNone then errJ "malformed_term" else
+  let fam := terms.filterMap id
+  let envc := getBool j "env_copyable"
+  let levels := levelsOfJson ((j.getObjVal? "levels").toOption.getD Json.null)
+  let sfam := fam.map Spec.C03.ofTerm
+  let model := match run envc fam with
+    | .ok coded => Json.mkObj [("ok", Json.arr (coded.map codedJson).toArray),
+        ("design", Json.arr ((designTerms coded).map codedJson).toArray),
+        ("cols", Spec.C03.totalColumns levels ((designTerms coded).map Spec.C03.ofCoded))]
+    | .error e => Json.mkObj [("err", e.tag)]
+  let second := match secondFamily envc fam with
+    | .ok f2 => jStrs (f2.map (·.name))
+    | .error e => Json.mkObj [("err", e.tag)]
+  let classes : List String :=
+    (if Spec.C03.extraTermNeedsCallCopy fam && !envc then ["extraTermNeedsCallCopy"] else []) ++
+    (if Spec.C03.emptyCodingSecondPass envc fam then ["emptyCodingSecondPass"] else []) ++
+    (if Spec.C03.multipleSubtermsSecondPass envc fam then ["multipleSubtermsSecondPass"] else []) ++
+    (if Spec.C03.numericPartOrderMismatch fam then ["numericPartOrderMismatch"] else []) ++
+    (if Spec.C03.duplicateTermUpToOrder fam then ["duplicateTermUpToOrder"] else [])
+  let implJ := (j.getObjVal? "impl").toOption.getD Json.null
+  let implPart := match implJ with
+    | .arr a =>
+      let design := a.toList.map codedOfJson
+      [("spec", Json.bool (Spec.C03.holds fam design)),
+       ("impl_cols", Json.num (Spec.C03.totalColumns levels (design.map Spec.C03.ofCoded)))]
+    | _ => []
+  Json.mkObj ([("model", model), ("second_family", second), ("classes", jStrs classes),
+    ("single_pass2", Json.bool (Spec.C03.SinglePass2 envc fam)),
+    ("model_holds", Json.bool (Spec.C03.modelHolds envc fam)),
+    ("pipeline_guard", Json.bool (Encoding.pipelineGuard envc fam)),
+    ("hier_family", Json.bool (Encoding.hierFamily fam)),
+    ("dim", Json.num (Spec.C03.modelDim levels sfam))] ++ implPart)
+
+def handle (op : String) (j : Json) : Option Json :=
+  match op with
+  | "c03_pick" =>
+    let group := groupOfJson ((j.getObjVal? "group").toOption.getD Json.null)
+    let model := match pickContrasts group with
+      | .ok out => Json.mkObj [("ok", pickJson out), ("partition", Json.bool (pickPartition group out))]
+      | .error e => Json.mkObj [("err", e.tag)]
+    let implJ := (j.getObjVal? "impl").toOption.getD Json.null
+    let implPart := match implJ with
+      | .arr _ => [("spec", Json.bool (pickPartition group (codingsOfJson implJ)))]
+      | _ => []
+    some (Json.mkObj ([("model", model)] ++ implPart))
+  | "c03_pipe" => some (pipe j)
+  | _ => none
 
 end FormulaeModel.Driver.C03
